@@ -981,7 +981,7 @@ func c09Jobs(tier string) []string {
 	for name := range c09Progs {
 		jobs = append(jobs, "coop:"+name)
 	}
-	jobs = append(jobs, "shadow", "dual", "relisten")
+	jobs = append(jobs, "shadow", "dual", "relisten", "onefamily")
 	return jobs
 }
 
@@ -1014,6 +1014,24 @@ func c09Run(job, tier string, deadline time.Time) *engine.Result {
 			}
 		}
 		r.Sample(map[string]interface{}{"dual": "UDP sockets of kinds " + strings.Join(c09DualNames(), ", ") + " alone and in ordered pairs; one IPv4 and one IPv6 datagram to port P"})
+		return r
+	}
+	if job == "onefamily" {
+		for _, v6 := range []bool{false, true} {
+			for k := range c09OneFamilyKinds {
+				f, probes := c09OneFamily(v6, k)
+				if probes == 0 && f == nil {
+					continue
+				}
+				r.Execs++
+				r.Transitions += int64(probes) + 3
+				r.Nontrivial++
+				if f != nil {
+					r.Violations = append(r.Violations, engine.Violation{Property: "C09", Kind: "demux", Key: f.key, Detail: f.msg, Job: job, Replay: engine.MustJSON(map[string]interface{}{"onefamily": k + 1, "v6stack": v6})})
+				}
+			}
+		}
+		r.Sample(map[string]interface{}{"onefamily": "stacks with IPv4 only / IPv6 only; dual-stack sockets of kinds " + strings.Join(c09OneFamilyKinds, ", ") + ": served while open, nobody served after Close, a plain successor can bind and is served"})
 		return r
 	}
 	if job == "relisten" {
@@ -1170,6 +1188,16 @@ func c09Replay(rp json.RawMessage) *engine.Violation {
 	}
 	if json.Unmarshal(rp, &du) == nil && len(du.Dual) == 2 {
 		if f, _ := c09Dual(du.Dual[0], du.Dual[1]); f != nil {
+			return &engine.Violation{Property: "C09", Kind: "demux", Key: f.key, Detail: f.msg}
+		}
+		return nil
+	}
+	var of struct {
+		OneFamily int  `json:"onefamily"`
+		V6Stack   bool `json:"v6stack"`
+	}
+	if json.Unmarshal(rp, &of) == nil && of.OneFamily > 0 {
+		if f, _ := c09OneFamily(of.V6Stack, of.OneFamily-1); f != nil {
 			return &engine.Violation{Property: "C09", Kind: "demux", Key: f.key, Detail: f.msg}
 		}
 		return nil
